@@ -15,7 +15,7 @@ def extra_letters(pal):
     L = letters(pal)
     cv = copy.deepcopy(L["CVc"][1])
     il = copy.deepcopy(L["IL"][1])
-    return {"CVw": ("Converter", dict(cv, vo=cv["vo"] * 0.9, limits={"ii": [0.0, 1e-7], "pl": [0.0, 1e-9]})),
+    return {"CVw": ("Converter", dict(cv, vo=cv["vo"] * 0.9, limits={"ii": [0.0, 1e-7], "pl": [0.0, 1e-9], "tp": [-100.0, 40.0]})),   # tp: fine at 25 C, exceeded at 60 C
             "ILw": ("ILoad", dict(il, limits={"vi": [0.0, 1e-3]}))}
 
 
@@ -50,6 +50,19 @@ def check_case(case):
     res = Res()
     spec = railed_spec(case)
     s = build(spec)
+    if case.get("rerail"):
+        # an analysis, then the rail of one owner is changed through change_comp (children attached by name), then the report
+        from ..sysmodel import make_comp
+        quiet_call(s.solve)
+        quiet_call(s.rail_rep)
+        tgt = [c for c in spec["comps"] if c.get("r")]
+        if tgt:
+            t = tgt[-1]
+            s.change_comp(t["n"], comp=make_comp(t), group=t.get("g", ""), rail="moved_" + t["n"])
+            if t.get("pc") is not None and spec.get("phases"):
+                s.set_comp_phases(t["n"], copy.deepcopy(t["pc"]))
+            t["r"] = "moved_" + t["n"]
+            res.classes.add("rerailed")
     res.stats["transitions"] += len(spec["comps"]) + 2
     try:
         df, _ = quiet_call(s.solve, vtol=1e-6, itol=1e-6)  # explicit, so that the two methods cannot differ through their defaults
@@ -131,6 +144,22 @@ def check_case(case):
     for key in got:
         if key not in exp_keys:
             res.v(("C08.spurious-rail-row",), str(key))
+    # the ambient temperature reaches the report: per-rail warnings at ta=60 are those of solve(ta=60)
+    if case.get("hot"):
+        dfh, _ = quiet_call(s.solve, vtol=1e-6, itol=1e-6, ta=60.0)
+        rrh, _ = quiet_call(s.rail_rep, vtol=1e-6, itol=1e-6, ta=60.0)
+        oh = observe(dfh)
+        for r in (rrh.to_dict("records") if rrh is not None and "Rail" in rrh.columns else []):
+            ph = r.get("Phase", "")
+            ew = set()
+            for n in d:
+                row = oh[(ph, n)]
+                if row.get("Rail in", "") == r["Rail"]:
+                    ew |= tokens(row.get("Warnings", ""))
+            if tokens(r.get("Warnings", "")) != ew:
+                res.v(("C08.warnings-at-other-ambient",), "ta=60 phase %r rail %s: %r, rows warn %r" % (ph, r["Rail"], r.get("Warnings", ""), sorted(ew)))
+            if "tp" in ew:
+                res.classes.add("tp-warning-at-60")
     # rail_rep(phase=p) lists exactly the rows of phase p of the all-phase report
     if spec.get("phases"):
         for ph in phases:
@@ -168,6 +197,9 @@ def gen_cases(tier):
                     yield dict(fam="tree", f=f, pal=pal, mask=list(mask), by_rail=by_rail)
                 if any(mask) and n <= 3:
                     yield dict(fam="tree", f=f, pal=pal, mask=list(mask), by_rail=False, pol=-1)   # negative supply rails
+                if any(mask) and n <= 2:
+                    yield dict(fam="tree", f=f, pal=pal, mask=list(mask), by_rail=False, rerail=True)
+                    yield dict(fam="tree", f=f, pal=pal, mask=list(mask), by_rail=True, hot=True)
                 if n <= 2 or (tier != "quick" and n == 3):
                     for c in spec["comps"][1:]:
                         opts = pc_options(c, PH2, full=False)[1:2]
@@ -191,7 +223,7 @@ def replay(doc):
 def main(tier):
     run = Run(PROP, tier, replay)
     run.map(check_case, gen_cases(tier), chunk=32, family="rails")
-    for c in ("rail-feeds-mux", "rail-with-warning", "no-rails"):
+    for c in ("rail-feeds-mux", "rail-with-warning", "no-rails", "rerailed", "tp-warning-at-60"):
         run.require(c in run.classes, "class %s never observed" % c)
     return run.finish(
         rule="E1-rail: every tree n<=3 (4 thorough) over {RLoss, Converter, LinReg, PSwitch, 1-input PMux, a converter and a load that always warn, PLoad, loss-RLoad} x every "
